@@ -229,10 +229,12 @@ def run_via_files(cmd, lines, timeout, env=None):
 class BigCase(core.Case):
     """A Case whose (large) script is run through files; same two programs, same arguments as core.Case.run."""
 
-    def run(self):
+    def run(self, patient=False):
         self.model = run_via_files([core.KBMODEL, self.suite], self.lines, 300)
         env = dict(os.environ, KB_TMP=os.environ.get("KB_TMP", "/dev/shm" if os.path.isdir("/dev/shm") else "/tmp"),
                    GOMEMLIMIT="2GiB")
+        if patient:
+            env["KB_WAIT_MS"] = "20000"
         self.impl = run_via_files([core.KBHARNESS, "-suite", self.suite], core.annotate(self.lines, self.model), 600, env=env)
         return self
 
